@@ -140,7 +140,9 @@ impl Compiler {
         let constraints = prover.constraints();
         let size = constraints.next_power_of_two();
 
-        let domain = EvaluationDomain::new(size - 1)?;
+        // `size` is a power of two, which `EvaluationDomain::new` maps to a
+        // domain of exactly that size (`size - 1` did not for `size == 2`).
+        let domain = EvaluationDomain::new(size)?;
 
         // 1. pad circuit to a power of two
         //
